@@ -159,3 +159,20 @@ Definition norm_obs (o : op) (x : obs) : obs :=
 (* final contents: an empty child is no child *)
 Definition norm_children (ch : omap (omap val)) : omap (omap val) :=
   filter (fun cm => match snd cm with [] => false | _ => true end) ch.
+
+Fixpoint norm_list (ops : list op) (xs : list obs) : list obs :=
+  match ops, xs with
+  | o :: r, x :: xr => norm_obs o x :: norm_list r xr
+  | _, _ => []
+  end.
+
+(* the statement "the implementation's history agrees with the specification's":
+   equal reads, and — once every transaction is closed — equal contents of the committed
+   state, whose root is the root of exactly these contents *)
+Definition agrees (impl : list obs * tstate) (spec : list obs * sstate) (ops : list op) : Prop :=
+  norm_list ops (fst impl) = norm_list ops (fst spec) /\
+  (ts_txs (snd impl) = [] ->
+   levels (snd spec) = [] /\
+   bk_main (ts_state (snd impl)) = c_main (backend (snd spec)) /\
+   norm_children (bk_children (ts_state (snd impl))) = norm_children (c_children (backend (snd spec))) /\
+   bk_stale (ts_state (snd impl)) = []).
